@@ -58,7 +58,7 @@ def gen_store(ctx, n):
         return ",".join(str(c) for c in cs + [fresh[0]])
 
     for _ in range(n):
-        ttl = rng.choice([0, 1000, 60000])
+        ttl = rng.choice([0, 10500, 60500])   # ages below are whole seconds: every look-up is at least 500 ms away from an expiry instant
         ops = []
         nsess = 0
         for _ in range(rng.range(3, 30)):
@@ -73,12 +73,12 @@ def gen_store(ctx, n):
             elif r < 17:
                 ops.append("n")
             else:
-                ops.append(f"a:{rng.choice([1, 400, 999, 1002, 30000, 59000, 61000])}")
+                ops.append(f"a:{rng.choice([1000, 2000, 5000, 10000, 11000, 30000, 59000, 61000])}")
         cases.append(f"store {ttl} " + " ".join(ops))
     # aimed: collision chains of every length up to 6, expiry around the boundary
     for k in range(1, 7):
         cases.append("store 1000 " + " ".join(f"c:0:{','.join(str(j) for j in range(1, i + 2))}" for i in range(k)) + " n " + " ".join(f"g:{j}" for j in range(1, k + 2)))
-    cases.append("store 1000 c:0:1 a:900 g:1 a:200 g:1 n c:0:1 g:1 n")
+    cases.append("store 1500 c:0:1 a:1000 g:1 a:1000 g:1 n c:0:1 g:1 n")
     cases.append("store 0 c:0:1 a:99999999 g:1 x:1 g:1 c:0:1 g:1")
     cases.append("store 1000 c:2:1 c:2:2 c:2:3 n x:1 c:2:3 n g:1 g:2 g:3")
     return list(dict.fromkeys(cases))
@@ -254,14 +254,14 @@ def run(ctx):
     thorough = ctx.tier == "thorough"
     rng = ctx.rng
     # ---- 1. the real Store
-    scases = gen_store(ctx, 1500 if thorough else 400)
+    scases = gen_store(ctx, 8000 if thorough else 400)
     impl, model, diffs = ctx.differential("store", scases, exe, timeout=600)
     for c, o in zip(scases, impl):
         if "MAPS:" in o:
             ctx.violation("C14:store-maps-disagree", "sessions and byCode disagree after an operation: " + o[o.index("MAPS:"):][:200], {"case": c, "impl": o})
     # ---- 2. tokenBucket / connLimiter inside the binary
     bcases, ccases = [], []
-    for _ in range(400 if thorough else 120):
+    for _ in range(3000 if thorough else 120):
         rate = rng.choice([1, 2, 5, 10, 50]) * 1000
         burst = rng.choice([0, 1, 2, 5, 10])
         dts = [rng.choice([0, 0, 10, 50, 100, 250, 500, 1000, 3000]) for _ in range(rng.range(1, 40))]
@@ -298,7 +298,7 @@ def run(ctx):
                 else:
                     inuse = max(inuse - 1, 0)
     # ---- 3. sequential histories on the real binary
-    hcases = gen_hist(ctx, 160 if thorough else 48, with_time=True)
+    hcases = gen_hist(ctx, 600 if thorough else 48, with_time=True)
     lines = ["hist " + json.dumps({"flags": h["flags"], "evs": h["evs"]}).encode().hex() for h in hcases]
     res, errs = run_parallel(ctx, exe, "hist", lines, {"THRUSERV_BIN": srv}, workers=12)
     ctx.oblige("harness:hist", not errs and all(r is not None for r in res), "; ".join(errs)[:300])
@@ -390,7 +390,7 @@ def run(ctx):
         "store_histories": len(scases), "bucket_and_connlimiter_runs": len(pcases), "server_histories": len(hcases),
         "server_histories_inconclusive_timing": inconclusive, "bursts": len(blines),
         "disagreements_model_vs_impl": len(diffs) + len(bad) + len(hd),
-        "rule": "Store: op sequences over CreateLimited(max) with scripted code candidates (collision chains up to 6), GetByJoinCode, Delete, Count, ageing across the TTL, ttl in {0, 1 s, 60 s}; real maps compared after every op. "
+        "rule": "Store: op sequences over CreateLimited(max) with scripted code candidates (collision chains up to 6), GetByJoinCode, Delete, Count, ageing across the TTL in whole seconds, ttl in {0, 10.5 s, 60.5 s}; real maps compared after every op. "
                 "tokenBucket / connLimiter: rates 1-50/s, bursts 0-10, gaps 0-3000 ms; limits 0-3. "
                 "thruserv histories: max-sessions 0-3 x max-receivers 0-2 x max-ws-connections {0,2,3,5} x max-message-bytes {0,200,1000} x session-timeout {0, 1.5 s, 10 min}; events: create (with valid/invalid/excessive max_receivers), "
                 "join as sender/receiver/other role with live, unknown, missing codes and missing peer ids, duplicate peer ids, disconnects, host leave, waiting across expiry, messages at limit-1/limit/limit+1/70 kB. "
